@@ -228,6 +228,28 @@ def targeted_jobs(chk, cmp=CMP_SPEND):
         r, s = btc.ecdsa_sign(sec, btc.sighash_legacy(c.tx, 0, spk, 1))
         c.tx.vin[0].script_sig = sig_prefix + push(btc.der_encode(r, s) + b"\x01")
         add("frame-carry:%d" % rep, c.tx, c.funding, [f for f in STANDARD if f != "SIGPUSHONLY"])
+    # high-S signatures: valid once LOW_S is removed from the flags, refused (SIG_HIGH_S) with the standard set
+    for rep in range(2):
+        for fl in ([f for f in STANDARD if f != "LOW_S"], STANDARD):
+            sec = rng.randrange(1, btc.N); key = btc.pubkey_create(sec)
+            spk = push(key) + O("CHECKSIG")
+            c = SpendCase(rng, "p2pk", "valid", 1, 0, 0)
+            c.funding.vout[0] = btc.TxOut(c.funding.vout[0].amount, spk)
+            c.tx.vin[0].prev_txid = c.funding.txid()
+            r, sv = btc.ecdsa_sign(sec, btc.sighash_legacy(c.tx, 0, spk, 1), high_s=True)
+            c.tx.vin[0].script_sig = push(btc.der_encode(r, sv) + b"\x01")
+            add("high-s:p2pk:%d:%s" % (rep, "lows" if "LOW_S" in fl else "nolows"), c.tx, c.funding, fl)
+            # the same under segwit v0 (P2WPKH)
+            c = SpendCase(rng, "p2wpkh", "valid", 1, 0, 0)
+            sec = rng.randrange(1, btc.N); key = btc.pubkey_create(sec)
+            spk = b"\x00\x14" + btc.hash160(key)
+            amt = c.funding.vout[0].amount
+            c.funding.vout[0] = btc.TxOut(amt, spk)
+            c.tx.vin[0].prev_txid = c.funding.txid()
+            code = b"\x76\xa9\x14" + btc.hash160(key) + b"\x88\xac"
+            r, sv = btc.ecdsa_sign(sec, btc.sighash_bip143(c.tx, 0, code, amt, 1), high_s=True)
+            c.tx.witness[0] = [btc.der_encode(r, sv) + b"\x01", key]
+            add("high-s:p2wpkh:%d:%s" % (rep, "lows" if "LOW_S" in fl else "nolows"), c.tx, c.funding, fl)
     # a witness item beyond 520 bytes (consensus: PUSH_SIZE)
     for n in (520, 521):
         ws = O("DROP") + b"\x51"
